@@ -61,6 +61,10 @@ func Corpus() []NamedCase {
 			Fields: []Field{{N: ":method", V: "GET"}, {N: "x-big", V: "b", R: []int{3, 16500}}}, Valid: true}}, true},
 		{"empty-header-block-trailers", []Op{hdr("C", 1, false, reqFields), data("C", 1, 3, false), hdr("C", 1, true, nil),
 			hdr("S", 1, false, respFields), hdr("S", 1, true, nil, 0)}, true},
+		{"initial-window-raised-connection-unchanged", []Op{settings("S", 4, 100000), ack("C"), hdr("C", 1, false, reqFields),
+			data("C", 1, 70000, true), winupd("S", 0, 3000)}, true},
+		{"two-initial-window-values-in-one-settings-frame", []Op{hdr("C", 1, false, reqFields), data("C", 1, 70000, false),
+			winupd("S", 0, 100000), settings("S", 4, 100000, 4, 0)}, false},
 		{"window-blocking", []Op{settings("S", 4, 10), ack("C"), hdr("C", 1, false, reqFields), data("C", 1, 25, true),
 			winupd("S", 1, 5), winupd("S", 1, 10), winupd("S", 0, 1)}, true},
 	}
